@@ -1,6 +1,6 @@
 import Okane.Lemmas.NoCrash
 import Okane.Lemmas.Diag
-import Okane.Lemmas.ParseTotalDiag
+import Okane.Lemmas.ParseTotalSpans
 import Okane.Props.C11
 /-!
 # C06 — every input yields output or a diagnostic: no crash, no hang
@@ -83,6 +83,13 @@ theorem C06_parse_total (t : List Char) :
   rcases Parse.parseLedger_total t with h | ⟨e, h, _⟩
   · exact .inl h
   · exact .inr ⟨e, h, Parse.parseLedger_error_constructible t e h⟩
+
+/-- **the entry spans `parse_ledger` delivers are non-empty valid UTF-8 slices of the text, in order and not
+overlapping** (`ParsedContext::as_str`'s `expect` cannot fire on them). -/
+theorem C06_parse_spans (t : List Char) (es : List Parse.Parsed) (h : Parse.parseLedger t = .ok es) :
+    (∀ x ∈ es, x.start < x.stop ∧ x.stop ≤ (encode t).length ∧
+      (PCtx.mk (encode t) ⟨x.start, x.stop⟩).validSlice = true) ∧
+    es.Pairwise (fun a b => a.stop ≤ b.start) := Parse.parseLedger_spans t es h
 
 /-- **C06_format.**  `format` (parse, then print every entry followed by an empty line) returns text or a
 `ParseError`, for every text and every display-width function. -/
@@ -225,6 +232,14 @@ theorem C06_error_context {π : Type} (path : π) (c : PCtx) (e : BkSpans)
   have hres := resolveAll_within c.span e.tracked hin
   cases e <;> simp_all [ErrorContext.annotations, BkSpans.tracked]
 
+/-- the report context of **every entry the parser delivers** can be built: the hypothesis `validSlice` of
+`C06_error_context` holds for all spans of `parse_ledger` (`C06_parse_spans`). -/
+theorem C06_parsed_entry_context {π : Type} (path : π) (t : List Char) (es : List Parse.Parsed)
+    (h : Parse.parseLedger t = .ok es) (x : Parse.Parsed) (hx : x ∈ es) :
+    (ErrorContext.new path ⟨encode t, ⟨x.start, x.stop⟩⟩).crashes = false :=
+  (C06_error_context path ⟨encode t, ⟨x.start, x.stop⟩⟩ .other ((C06_parse_spans t es h).1 x hx).2.2
+    (by intro r hr; cases hr)).1
+
 /-! ## non-vacuity -/
 
 -- the parser is not constant: a transaction is accepted, a month 13 is a `ParseError`, and with one unit of fuel
@@ -232,8 +247,18 @@ theorem C06_error_context {π : Type} (path : π) (c : PCtx) (e : BkSpans)
 example : (Parse.parseLedger "2024/01/01 x\n A  1 USD\n B\n".toList).isOk = true := by decide +kernel
 example : (Parse.parseLedger "2024/13/01 x\n".toList).isErr = true := by decide +kernel
 example : (Parse.parseLedgerFuel 1 "; a\n\n; b\n".toList).crashes = true := by decide +kernel
-example : (Unparse.format Unparse.widthStd "2024/01/01 x\n A  (1 + 2) * 3 USD\n B\n".toList).isOk = true := by decide +kernel
+example : (Unparse.format Unparse.widthStd "2024/01/01 x\n A  1 USD\n B\n".toList).isOk = true := by decide +kernel
 example : (Unparse.format Unparse.widthStd "account A\n  alias\n".toList).isErr = true := by decide +kernel
+-- the assert sites and fuel bounds of the combinator loops are real: an element that succeeds without consuming
+-- reaches them, a consuming one (hypothesis of `C06_loops`) does not
+example : Comb.repeat0 (Comb.pure ()) ['a'] = .panic "repeat: parsers must always consume" := by decide
+example : Comb.separated1 (Comb.char 'a') (Comb.pure ()) ['a'] = .panic "separated: separator must always consume" := by decide
+example : Comb.repeat0Loop (Comb.char 'a') 1 ['a', 'a'] [] = .fuel := by decide
+example : Comb.Safe 1 (Comb.repeat1 (Comb.char 'a')) :=
+  (C06_loops (Comb.safe_char 'a' (Nat.le_refl _)) (Comb.safe_space0 (Nat.le_refl 0))).2.1
+-- `C06_parse_total`'s error branch and `C06_parse_spans`' hypothesis are inhabited (the two examples above);
+-- an error at the very end of the input (the case behind finding F1a) is among them
+example : (Parse.parseLedger "2024/01/01 x\n A  1 USD\n B  (".toList).isErr = true := by decide +kernel
 
 -- `process` is not constant: a balanced transaction is accepted, an unbalanced one and a cost on a
 -- commodity-less zero amount are rejected with an error (not the `unreachable!`)
